@@ -60,8 +60,22 @@ async def _run(sc):
 
     class SizedSource(core_event.FifoQueueEventSource):
         """a user-defined source that reports how many events it still holds (falsy once drained)"""
+        def __init__(self, events):
+            super().__init__(events=events)
+            self._held = len(events)
+
+        def push(self, event):
+            self._held += 1
+            super().push(event)
+
+        def pop(self):
+            ev = super().pop()
+            if ev is not None:
+                self._held -= 1
+            return ev
+
         def __len__(self):
-            return len(self._queue)
+            return self._held
 
     # a third of the scenarios use such sources / events: the dispatcher must treat them like any other
     n_total = sum(len(evs) for evs in sc["sources"]) + len(sc["jobs"])
